@@ -1,8 +1,86 @@
-(* C08 -- property theorems only (temporary skeleton while Proofs/C08.v is being completed). *)
-From Coq Require Import List NArith ZArith Bool.
-Import ListNotations.
-Require Import Verif.Lib.Wire Verif.Gen.Facts_C08 Verif.Model.C08.
+(* C08 -- property theorems only.  Each is closed by [exact] of a lemma proved in Proofs/C08*.v;
+   Print Assumptions beneath each.
 
+   Hypotheses (defined in Proofs/C08.v):
+     H1 l        write discipline: two statements with different ids write a common key only as members of one
+                 ordered container (both MSeq) or as views of one multiview with different predicate orders
+                 (both MAcc, different sacc)                       -- discharged by C04's conflict detection
+     H2 l        phase discipline: every key a statement reads is written only by statements of strictly
+                 earlier phases                                    -- regenerated table + monitored run
+     Horder l l' for every key, the MSeq writers of that key occur in the same relative order in l and l'
+                 (route vs route, subscriber vs subscriber, tween vs tween)
+     store_eq    pointwise equality of stores (no extensionality axiom)
+
+   TODO (unproved), compared on every generated case instead (flag "executed = schedule" of the model):
+     for a flat program with pairwise different discriminators, the Run events of C04's [commit] are
+     exactly [schedule] (C04 proves commit = run_groups and commit_safe; the step from run_groups to the
+     stable sort by phase is not proved).  Equality of whole applications is validated, not proved. *)
+From Coq Require Import List NArith ZArith Bool Permutation.
+Import ListNotations.
+Require Import Verif.Lib.Wire Verif.Lib.C04Sort Verif.Gen.Facts_C08 Verif.Model.C04 Verif.Model.C08.
+Require Import Verif.Proofs.C08 Verif.Proofs.C08_tbl.
+
+(* the scheduling theorem: any two orderings of one statement set that keep the order inside every ordered
+   container end in the same store, whatever the size of the program *)
+Theorem C08_commit_permutation_invariant : forall l l',
+  NoDup (map sid l) -> Permutation l l' -> Horder l l' -> H1 l -> H2 l ->
+  store_eq (final l) (final l').
+Proof. exact commit_permutation_invariant. Qed.
+Print Assumptions C08_commit_permutation_invariant.
+
+(* a statement may refer to something declared later: wherever reader s and writer w stand in the program, the
+   writer runs in an earlier phase, the key holds exactly the writer's value at the end, and that is what the
+   reader found when its own turn came *)
+Theorem C08_forward_reference_ok : forall l s w k,
+  NoDup (map sid l) -> H1 l -> H2 l -> In s l -> In w l -> In k (sreads s) -> writes k w = true -> smode w = MSet ->
+  (sphase w < sphase s)%Z /\
+  final l k = [(0%N, mkval w (final l))] /\
+  exists pre post, schedule l = pre ++ s :: post /\ runl pre empty k = final l k.
+Proof. exact forward_reference_ok. Qed.
+Print Assumptions C08_forward_reference_ok.
+
+(* what a statement computes at its turn is what it would compute from the final store *)
+Theorem C08_reader_sees_final : forall l s pre post,
+  H2 l -> schedule l = pre ++ s :: post -> mkval s (runl pre empty) = mkval s (final l).
+Proof. exact reader_sees_final. Qed.
+Print Assumptions C08_reader_sees_final.
+
+(* Facts_ok: the regenerated phases/deferred flags together with the declared read/write table satisfy phase
+   discipline (every read family of a phase-p directive is written only by directives of phases < p; a
+   discriminator that reads anything is deferred), one write mode per family, one declared row per site *)
 Theorem C08_table_ok : table_ok = true.
-Proof. vm_compute. reflexivity. Qed.
+Proof. exact table_ok_holds. Qed.
 Print Assumptions C08_table_ok.
+
+(* ... and therefore every program whose statements instantiate rows of the table satisfies H2 *)
+Theorem C08_table_discipline : forall (l : list (row * stmt)),
+  (forall p, In p l -> In (fst p) rows /\ conforms (fst p) (snd p) = true) -> H2 (map snd l).
+Proof. exact table_programs_H2. Qed.
+Print Assumptions C08_table_discipline.
+
+(* the phases of the directives the property names, read from the regenerated table *)
+Theorem C08_directive_phases :
+  phase_of n_add_predicate = Some phase1 /\ phase_of n_add_view_deriver = Some phase1 /\
+  phase_of n_add_renderer = Some phase1 /\ phase_of n_set_default_permission = Some phase1 /\
+  phase_of n_set_default_csrf_options = Some phase1 /\
+  phase_of n_set_security_policy = Some phase2 /\ phase_of n_add_route_iface = Some phase2 /\
+  phase_of n_add_view = Some phase3 /\ deferred_of n_add_view = Some true /\
+  phase_of n_add_route_connect = Some default_order /\
+  (phase0 < phase1 < phase2)%Z /\ (phase2 < phase3)%Z /\ phase3 = default_order.
+Proof. exact directive_phases. Qed.
+Print Assumptions C08_directive_phases.
+
+(* the executable checks returned with every model run are sound for the hypotheses *)
+Theorem C08_h1b_sound : forall l, h1b l = true -> H1 l.
+Proof. exact h1b_H1. Qed.
+Print Assumptions C08_h1b_sound.
+
+Theorem C08_h2b_sound : forall l, h2b l = true -> H2 l.
+Proof. exact h2b_H2. Qed.
+Print Assumptions C08_h2b_sound.
+
+(* phase discipline is necessary: with the writer moved into the reader's phase two orderings differ *)
+Theorem C08_h2_necessary :
+  Permutation Ex.c1 Ex.c2 /\ ~ store_eq (final Ex.c1) (final Ex.c2).
+Proof. exact (conj Ex.c1_c2_perm Ex.c1_c2_not_equal). Qed.
+Print Assumptions C08_h2_necessary.
